@@ -124,6 +124,19 @@ CHECKS['C04'] = dict(
     note='Link-following configurations are evaluated only on trees without directory cycles (the walk is unbounded '
          'there by design); every chunk runs in a fresh worker process so that a chunk is a complete replayable history.')
 
+CHECKS['C06'] = dict(
+    level='exploration', engine='FSX', design='6 C06',
+    technique='explicit-state exploration of file-system states containing symlinks; os.scandir interposed to log and '
+              'bound directory listings; reference walker with the link rule; alignment search over pattern segments for '
+              'every listed directory',
+    text='Every explored state with a symlink (to ancestors, siblings, files, hidden directories, nowhere; cycles) x every '
+         'pattern with ** / *** in any position and explicit link/* forms x 10 flag sets over FOLLOW, GLOBSTARLONG, '
+         'MATCHBASE, DOTGLOB: glob result vs reference, globmatch(REALPATH) vs reference on entry and through-link '
+         'spellings, no directory listed through a symlink consumed by a non-following globstar, bounded number of '
+         'listings on cyclic trees, WcMatch without SYMLINKS never enters a link and terminates.',
+    note='Termination is a horizon on counted scandir calls (never wall-clock); link-following configurations are run '
+         'only on trees without directory cycles.')
+
 PENDING = {}
 
 
